@@ -59,9 +59,11 @@ namespace
 
     bool match(const Pattern& p, const std::vector<std::string>& path, Match& m)
     {
-        size_t n        = p.segs.size();
-        bool opt_final  = n && p.segs.back().cls == O;
-        if (!(path.size() == n || (opt_final && path.size() + 1 == n)))
+        size_t n = p.segs.size();
+        size_t t = 0; // trailing run of optionals: a path may stop anywhere inside it
+        while (t < n && p.segs[n - 1 - t].cls == O)
+            ++t;
+        if (!(path.size() <= n && path.size() + t >= n))
             return false;
         m = Match();
         for (size_t i = 0; i < path.size(); ++i)
@@ -270,6 +272,13 @@ namespace verif
                 }
                 p.segs.push_back(g);
             }
+            // a run of two trailing optionals ("/archive/:p?/:o?"; derived from values already drawn, no choice
+            // consumed): a request may stop one or two segments short
+            if (n >= 2 && p.segs.back().cls == O && (n * 5 + nops + live.size()) % 3 == 0)
+            {
+                p.segs[n - 2].cls  = O;
+                p.segs[n - 2].name = ":p";
+            }
             std::vector<std::string> segs;
             for (auto& g : p.segs)
                 segs.push_back(g.name + (g.cls == O ? "?" : ""));
@@ -286,7 +295,7 @@ namespace verif
                     ++rec.calls;
                     rec.last_id = pid;
                     rec.params.clear();
-                    for (const char* nm : { ":x", ":y", ":o" })
+                    for (const char* nm : { ":x", ":y", ":p", ":o" })
                         if (req.hasParam(nm))
                             rec.params.push_back({ nm, req.param(nm).as<std::string>() });
                     rec.splats.clear();
@@ -408,7 +417,7 @@ namespace verif
                 }
                 // bindings: first binding per name, splats in order
                 std::vector<std::pair<std::string, std::string>> wantp;
-                for (const char* nm : { ":x", ":y", ":o" })
+                for (const char* nm : { ":x", ":y", ":p", ":o" })
                     for (auto& kv : chosen->second.params)
                         if (kv.first == nm)
                         {
